@@ -28,7 +28,7 @@ impl Ctl {
         if b.free_run { return; }
         // only the thread that holds the turn gives it up and lets the schedule pick the next one;
         // a thread arriving at its first point without the turn just waits
-        if b.turn == Some(t) {
+        if b.turn == Some(t) && name != "start" {
             b.turn = None;
             self.advance(&mut b);
             self.cv.notify_all();
